@@ -112,8 +112,7 @@ def L1(ctx):
         elif role in ("rel_read", "rel_write"):
             if e[0] == "agg" and e[2] == "None":
                 if role == "rel_read":
-                    emptied = unreachable_if(body, w["bb"], assume_calls({"std::collections::HashSet::<T, S>::is_empty": False,
-                                                                          "std::collections::HashSet::<T, S, A>::is_empty": False}))
+                    emptied = unreachable_if(body, w["bb"], assume_collection_calls({"is_empty": False}))
                     if not emptied:
                         ctx.bad("L1", fk, "read release clears the lock although other readers remain", site_str(prog, w["fn"], w["bb"]), detail="rel_read")
                         continue
@@ -133,8 +132,7 @@ def _read_arms(ctx):
         return
     body = fn.body
     inst = prog.ident(k)
-    ins = [(b, t) for (b, t, c) in prog.sites(inst) if prog.callee_key(c).startswith("std::collections::HashSet::<") and
-           prog.callee_key(c).endswith("::insert")]
+    ins = [(b, t) for (b, t, c) in prog.sites(inst) if is_std_collection_call(prog.callee_key(c), "insert")]
     ok = True
     for (b, t) in ins:
         vs = set()
